@@ -198,33 +198,52 @@ def roots_and_depth(ctx, rule, f, ext, seq_calls, ext_calls, kernel_names):
                 continue
             g = searched_graph(fi, c)[0] or "?"      # the base graph: a sub-graph has at most as many nodes
             enough = {"len(%s)" % g, "%s.number_of_nodes()" % g, "len(%s.nodes)" % g, "len(%s.nodes())" % g, "%s.order()" % g}
-            aff = C.affine(cut)
-            terms = {k: v for k, v in aff.items() if k != 1}
-            verdict = None
-            if len(terms) == 1 and aff.get(1, 0) >= 0:
-                (t, co), = terms.items()
-                whole = {"len(%s)" % k for k in kernel_names} if fi is f else set()
-                if fi is f:
-                    whole |= {a.targets[0].id for a in ast.walk(f.node) if isinstance(a, ast.Assign) and isinstance(a.targets[0], ast.Name)
-                              and U(a.value) in whole}
-                if t in enough and co >= 1:
-                    verdict = True
-                elif t in whole:
-                    verdict = co >= 1       # nodes on a path root -> root + offset are kernel lines (load stages have no
-                                            # incoming edge, C04-R2), each at most once: at most len(kernel) edges
-                elif fi is ext and any(t == "len(%s)" % prm for prm in ext.params()):
-                    verdict = False         # a worker parameter: the slice of roots, not the kernel
-                else:
-                    # a local: expand once
-                    ds = [a for a in C.assigns_to(fi.node, t)] if t.isidentifier() else []
-                    if len(ds) == 1 and isinstance(ds[0], ast.Assign):
-                        t2 = U(ds[0].value)
-                        if t2 in enough and co >= 1:
-                            verdict = True
-                        elif fi is ext and any(t2 == "len(%s)" % prm for prm in ext.params()):
-                            verdict = False
-                        elif t2 in whole:
-                            verdict = co >= 1
+            def depth_verdict(fi, cut, g):
+                enough = {"len(%s)" % g, "%s.number_of_nodes()" % g, "len(%s.nodes)" % g, "len(%s.nodes())" % g, "%s.order()" % g}
+                if fi is ext and isinstance(cut, ast.Name) and cut.id in ext.params():
+                    # a worker parameter: judged by what the caller hands in for it (Process(args=(...)))
+                    procs = [c_ for c_ in ast.walk(f.node) if isinstance(c_, ast.Call) and pm.call_name(c_).endswith("Process")]
+                    argt = [k.value for c_ in procs for k in c_.keywords if k.arg == "args"]
+                    idx = ext.params().index(cut.id) - 1
+                    if len(argt) == 1 and isinstance(argt[0], ast.Tuple) and 0 <= idx < len(argt[0].elts):
+                        gname = U(argt[0].elts[ext.params().index(g) - 1]) if g in ext.params() and ext.params().index(g) - 1 < len(argt[0].elts) else g
+                        return depth_verdict(f, argt[0].elts[idx], gname)
+                    return None
+                try:
+                    cut = C.flow_of(fi).subst(cut)
+                except Exception:
+                    pass
+                aff = C.affine(cut)
+                terms = {k: v for k, v in aff.items() if k != 1}
+                verdict = None
+                if len(terms) == 1 and aff.get(1, 0) >= 0:
+                    (t, co), = terms.items()
+                    whole = {"len(%s)" % k for k in kernel_names} if fi is f else set()
+                    if fi is f:
+                        whole |= {a.targets[0].id for a in ast.walk(f.node) if isinstance(a, ast.Assign) and isinstance(a.targets[0], ast.Name)
+                                  and U(a.value) in whole}
+                    if t in enough and co >= 1:
+                        verdict = True
+                    elif t in whole:
+                        verdict = co >= 1       # nodes on a path root -> root + offset are kernel lines (load stages have no
+                                                # incoming edge, C04-R2), each at most once: at most len(kernel) edges
+                    elif fi is ext and any(t == "len(%s)" % prm for prm in ext.params()):
+                        verdict = False         # a worker parameter: the slice of roots, not the kernel
+                    else:
+                        # a local: expand once
+                        ds = [a for a in C.assigns_to(fi.node, t)] if t.isidentifier() else []
+                        if len(ds) == 1 and isinstance(ds[0], ast.Assign):
+                            t2 = U(ds[0].value)
+                            if t2 in enough and co >= 1:
+                                verdict = True
+                            elif fi is ext and any(t2 == "len(%s)" % prm for prm in ext.params()):
+                                verdict = False
+                            elif t2 in whole:
+                                verdict = co >= 1
+                            elif co >= 1 and not isinstance(ds[0].value, ast.Name):
+                                verdict = depth_verdict(fi, ds[0].value, g)
+                return verdict
+            verdict = depth_verdict(fi, cut, g)
             if verdict is None:
                 ctx.broken("R3: search depth bound `%s` is not understood (neither the graph's node count nor a multiple of the kernel length)" % U(cut))
             ctx.check(verdict, rule, "search depth bound >= longest possible simple path", fi.where(c),
@@ -416,6 +435,31 @@ def run(ctx):
         lst = U(kb["M_l"]) if kb else None
         if lst is None:
             ctx.node_bad("R4", f, n, "de-duplication key `%s` is not tuple(<sorted member list>)" % U(key))
+            continue
+        if not isinstance(kb["M_l"], ast.Name):
+            # the key is built in one expression (no member list to sort or to append to): it identifies a cycle when it is
+            # the sorted sequence of one (node, latency) pair per edge of the path, and paths are dropped only when it was seen
+            gen = kb["M_l"]
+            inner = pm.match("sorted(M_g)", gen)
+            gen = inner["M_g"] if inner else gen
+            per_edge = (isinstance(gen, (ast.GeneratorExp, ast.ListComp)) and len(gen.generators) == 1
+                        and not gen.generators[0].ifs and C.is_call_to(gen.generators[0].iter, "pairwise")
+                        and isinstance(gen.generators[0].target, ast.Tuple) and len(gen.generators[0].target.elts) == 2
+                        and isinstance(gen.elt, ast.Tuple) and len(gen.elt.elts) == 2)
+            if per_edge and (key_sorted or inner):
+                s_, d_ = (U(e) for e in gen.generators[0].target.elts)
+                first, second = gen.elt.elts
+                lat_ok = any(pm.match(pt, second) for pt in ('M_g.edges[%s, %s]["latency"]' % (s_, d_),
+                                                             'M_g.edges[(%s, %s)]["latency"]' % (s_, d_),
+                                                             'M_g[%s][%s]["latency"]' % (s_, d_)))
+                node_ok = s_ in {x.id for x in ast.walk(first) if isinstance(x, ast.Name)}
+                memb = C.CT("%s in %s" % (U(b["M_key"]), U(b["M_set"])))
+                if lat_ok and node_ok and (memb, False) in C.norm_facts(n):
+                    ctx.node_ok("R4", f, n, "one-expression key: sorted (node, latency) pair per edge; add only when new")
+                    continue
+            ctx.unknown("R4", "de-duplication key %s" % U(b["M_key"]), f.where(n),
+                        "the key `%s` is built in one expression that is not the sorted sequence of one (node, latency) pair "
+                        "per edge of the path" % U(key)[:160])
             continue
         sorts = [s for s, _ in pm.find_any(["%s.sort()" % lst, "%s = sorted(%s)" % (lst, lst)], f.node)]
         dom = [s for s in sorts if cfg.dominates(s, n) and C.enclosing_loop(s) is C.enclosing_loop(n)]
